@@ -284,7 +284,7 @@ def rule_bin_cover(ctx, rid):
             alloc = n
     problem = None
     try:
-        for nb in (2, 3, 5):
+        for nb in ((2, 3, 4, 5, 8, 12, 16) if ctx.tier == 'thorough' else (2, 3, 5)):
             E = nb + 1
             el0 = ElemEval(E, {S('nbins'): nb}, edges_terms=(edges,))
             bounds = [el0.ev(a) for a in it[2]]
